@@ -351,7 +351,9 @@ func (g *G) Duration() time.Duration {
 	case 2:
 		return time.Duration(math.MaxInt64)
 	case 3:
-		return rng.Pick(r, []time.Duration{1, -1, 999999, 1000000, 1000001, -999999, -1000000, -1000001, time.Second, time.Millisecond * 1500, -time.Hour, 1999999, -1999999})
+		return rng.Pick(r, []time.Duration{1, -1, 999999, 1000000, 1000001, -999999, -1000000, -1000001, time.Second, time.Millisecond * 1500, -time.Hour, 1999999, -1999999,
+			// long durations one nanosecond short of a whole millisecond: not representable in a float64
+			400*24*time.Hour - 1, -(400*24*time.Hour - 1), 9007199254999999, -9007199254999999})
 	}
 	return time.Duration(g.Int64(64))
 }
